@@ -577,7 +577,7 @@ def main():
         rc, out, err = run_harness("h_fac", "".join(l for l in open(sys.argv[2]) if not l.startswith("#")), asan=True)
         print(out + err[-2000:])
         sys.exit(0)
-    ck = Check("C13", "exploration")
+    ck = Check("C13", "proof")
     build_repo()
     pr = ck.proofs()
     T = ck.thorough()
